@@ -94,6 +94,9 @@ def run(prog: Program, res: Result) -> None:
         bad("R1-init-population-size", ip.node, "_init_population does not create exactly self._config.population_size agents",
             key="abstract.OptimizationAbstract._init_population::size")
     for (rule, node, msg) in check_population_helpers(prog, size_only=True):
+        if rule == "UNDECIDED":
+            res.errors.append(msg + " (undecided)")
+            continue
         if "sorted" in rule:
             continue      # ordering before pairing is C16's concern; the count is one result per incumbent either way
         bad("R1-" + rule.split("-", 1)[1], node, msg)
@@ -109,7 +112,7 @@ def run(prog: Program, res: Result) -> None:
     from ..ord import L, OrdDeviation, OrdUnknown, evaluate
     from ..sgn import MIN
     try:
-        got, _ = evaluate(prog, "sort_and_trim", MIN)
+        got, _ = evaluate(prog, "sort_and_trim", MIN, ok=lambda g: isinstance(g, L) and g.window == ("FIRST", "population_size"))
         okt = isinstance(got, L) and got.window == ("FIRST", "population_size")
         res.ob(okt, f"sort_and_trim = {got.show() if isinstance(got, L) else got}", "sort_and_trim")
         if not okt:
